@@ -375,9 +375,10 @@ def parseAddrTable (s : String) : Option (List (Bytes × List Bytes)) :=
 
 def addrOf (tbl : List (Bytes × List Bytes)) (t : Bytes) : Option (List Bytes) := (tbl.find? (·.1 == t)).map (·.2)
 
-def showRp : Option RpCfg → String
-  | none => "err"
-  | some c =>
+def showRp : Lr RpCfg → String
+  | .err => "err"
+  | .fuel => "model-out-of-fuel"
+  | .ok c =>
     "ok ups=" ++ (if c.ups.isEmpty then "-" else ",".intercalate (c.ups.map Hex.encode))
       ++ " pol=" ++ (match c.pol with | none => "-" | some p => ">".intercalate (p.map showPNode))
       ++ " r=" ++ toString c.retries ++ " td=" ++ toString c.tryDur ++ " ti=" ++ toString c.tryInt
